@@ -1,0 +1,29 @@
+//go:build verif
+// +build verif
+
+package pubsub
+
+import (
+	"fmt"
+
+	"github.com/ovrclk/akash/util/veriftrace"
+)
+
+// vt records one loop step of bus/subscriber b for external verification
+// harnesses: the event name, its arguments and the projected state of the loop
+// (undelivered buffer, number of subscriptions).  It must only be called from
+// b's own run() goroutine.  Arguments of type *bus are logged by identity.
+func (b *bus) vt(event string, kv ...interface{}) {
+	out := make([]interface{}, 0, len(kv)+6)
+	for i := 0; i+1 < len(kv); i += 2 {
+		v := kv[i+1]
+		if o, ok := v.(*bus); ok {
+			v = fmt.Sprintf("%p", o)
+		}
+		out = append(out, kv[i], v)
+	}
+	buf := make([]Event, len(b.evbuf))
+	copy(buf, b.evbuf)
+	out = append(out, "buf", buf, "nsubs", len(b.subscriptions), "root", b.eventch == nil)
+	veriftrace.Emit("bus", fmt.Sprintf("%p", b), event, out...)
+}
